@@ -241,10 +241,11 @@ func genSoftmax(r *gen.R, op string, validOnly bool) (mon.OpReq, Expect, bool) {
 	if dt == ref.F64 {
 		maxMag = math.MaxFloat64 / 2.2
 	}
-	mode := r.Intn(6)
+	mode := r.Intn(7)
 	if validOnly {
 		mode = 0
 	}
+	sign := float64(1 - 2*r.Intn(2))
 	for i := range x.Bits {
 		var v float64
 		switch mode {
@@ -267,10 +268,12 @@ func genSoftmax(r *gen.R, op string, validOnly bool) (mon.OpReq, Expect, bool) {
 			if r.Chance(0.15) {
 				v = r.PickFloat(1e4, -1e4, 3e38/2.5, -3e38/2.5, 100, -100)
 			}
+		case 6: // values of one sign in the upper half of the float range (their differences stay finite)
+			v = sign * r.Uniform(0.55, 0.99) * maxMag * 2.2
 		default: // tiny values
 			v = r.Uniform(-1, 1) * 1e-30
 		}
-		if math.Abs(v) > maxMag {
+		if mode != 6 && math.Abs(v) > maxMag {
 			v = math.Copysign(maxMag, v)
 		}
 		x.Bits[i] = ref.EncF(dt, v)
@@ -433,6 +436,42 @@ func c09Structural(c *Ctx, req mon.OpReq, got *ref.T) {
 		}
 		inner := ref.NumElems(x.Shape[axis+1:])
 		outer := ref.NumElems(x.Shape[:axis])
+		if req.Op == "Softmax" {
+			// a bound relative to each probability (the general tolerance is absolute and grows with
+			// the magnitude of the inputs): p_i = exp(x_i - max) / sum, where the argument is formed
+			// with one rounding and the exponentials and the sum with a few more
+			slack := 2.4e-38 // below the smallest normal number results may be flushed or lose digits
+			if x.DT == ref.F64 {
+				slack = 4.5e-308
+			}
+			finite := true
+			for i := range x.Bits {
+				if v := x.F(i); v != v || math.IsInf(v, 0) {
+					finite = false
+				}
+			}
+			for o := 0; finite && o < outer; o++ {
+				for in := 0; in < inner; in++ {
+					mx := math.Inf(-1)
+					for j := 0; j < k; j++ {
+						mx = math.Max(mx, x.F((o*k+j)*inner+in))
+					}
+					sum := 0.0
+					for j := 0; j < k; j++ {
+						sum += math.Exp(x.F((o*k+j)*inner+in) - mx)
+					}
+					for j := 0; j < k; j++ {
+						d := x.F((o*k+j)*inner+in) - mx
+						p := math.Exp(d) / sum
+						g := got.F((o*k+j)*inner + in)
+						if math.Abs(g-p) > p*(4*u*math.Abs(d)+float64(k+16)*16*u)+slack {
+							c.Violation("Softmax:wrong-value", "element %d of the slice: %v, expected %v (input %v, %v below the slice maximum; bound relative to the probability) | %s", j, g, p, x.F((o*k+j)*inner+in), -d, trunc(req.Describe(), 300))
+							return
+						}
+					}
+				}
+			}
+		}
 		for o := 0; o < outer; o++ {
 			for in := 0; in < inner; in++ {
 				sum := 0.0
